@@ -315,8 +315,13 @@ type env struct {
 }
 
 func newEnv(r *engine.Run, family string, subLen, litLen int) *env {
-	e := &env{vm: otto.New(), subs: SubjectsExt(subLen), subLen: subLen, family: family}
-	e.litN = len(Subjects(litLen))
+	return newEnvSubjects(r, family, subLen, SubjectsExt(subLen), len(Subjects(litLen)))
+}
+
+// newEnvSubjects is newEnv with an explicit subject list (subLen then only names the list).
+func newEnvSubjects(r *engine.Run, family string, subLen int, subs [][]uint16, litN int) *env {
+	e := &env{vm: otto.New(), subs: subs, subLen: subLen, family: family}
+	e.litN = litN
 	for _, s := range e.subs {
 		v, err := otto.ToValue(regex.String16(s))
 		if err != nil {
